@@ -266,9 +266,34 @@ fn main() {
         "cases = (pair of series of length 0..=20 (thorough ..=48) with every null pattern, window 0..=len+3 weighted towards 0, 1, len-1, len, len+1, min_periods, second series equal / shorter / longer, k in 0..=len+2, f64 or Option<f64> elements, returned or caller-supplied output buffer); every rolling entry point (28 single-series, 8 two-series, rolling2_custom), vrank, varg_partition, vpartition, vquantile runs on an instrumented input view that logs each unchecked element / slice access and into an instrumented output buffer that logs each write. Oracle: the call completes with a clean access log, an output as long as the input, and every slot written exactly once; or - for degenerate parameters only (window 0, mismatched second series) - it panics before any bad access. \
          Non-trivial = w > len, w = 0 with len > 0, len = 0, mismatched lengths, or (len > w and nulls present: rescans and removals of nulls happen); distinct = distinct serialised cases",
     )
-    .assume("the instrumented view delegates its rolling drivers to the library's own *_to bodies exactly as the Vec backend does");
+    .assume("the instrumented view delegates its rolling drivers to the library's own *_to bodies exactly as the Vec backend does")
+    .assume("sub real_containers (and the libFuzzer target fz_kernel under ASan in the thorough tier) runs the kernels on the real Vec / wrapped VecDeque / strided ndarray view with the C01/C03 model and cross-backend bit-equality as oracle")
+    .raw(|bytes| ("real_containers".to_string(), serde_json::to_value(tvh::fuzzable::decode_kernel(bytes)).unwrap()));
     p.add(sub("single_series_kernels", 6000, 200000, k_case, check_single));
     p.add(sub("two_series_kernels", 6000, 200000, k_case, check_double));
     p.add(sub("rank_partition_quantile", 10000, 300000, k_case, check_rank_partition));
+    p.add(sub(
+        "real_containers",
+        10000,
+        300000,
+        |tier| {
+            (k_case(tier), 0usize..20, 0usize..10, 0usize..5).prop_map(|(k, st, rot, step)| tvh::fuzzable::KernelCase {
+                c: tvh::gen::RollCase {
+                    x: k.x,
+                    w: k.w.max(1),
+                    mp: k.mp.map(|m| m.min(k.w.max(1))),
+                    tin: InT::F64,
+                    tout: tvh::gen::OutT::F64,
+                    class: "kernel".into(),
+                    out_buf: k.out_buf,
+                    p: 0.0,
+                },
+                st,
+                rot,
+                step: [1i8, 2, 3, -1, -2][step],
+            })
+        },
+        tvh::fuzzable::check_kernel,
+    ));
     main_for(p);
 }
